@@ -242,6 +242,7 @@ func runEpisode(t *rapid.T, w *world, label string, hk *hook) epResult {
 	gview := func(h int64) *types.LightBlock { return w.g[h] }
 
 	var forkNotes []string
+	hostile := map[string]bool{} // fork label -> its commits have a hostile layout
 	mkFork := func(lbl string, backed bool, base func(int64) *types.LightBlock) map[int64]*types.LightBlock {
 		if tgt == 0 {
 			return map[int64]*types.LightBlock{}
@@ -296,6 +297,11 @@ func runEpisode(t *rapid.T, w *world, label string, hk *hook) epResult {
 			fs.salt = label + lbl
 		}
 		forkNotes = append(forkNotes, fmt.Sprintf("%s: heights %d..%d genuineFirst=%v coalition=%s nilRest=%v time=%s forgedVals=[%s]", lbl, fs.j, fs.m, fs.genuineFirst, fs.coal, fs.nilRest, fs.timeMode, describeVals(fs.fv.Set)))
+		if fs.layout != "" {
+			hostile[lbl] = true
+			cls.add("fork-commit-layout:" + fs.layout)
+			forkNotes[len(forkNotes)-1] += fmt.Sprintf(" layout=%s slots=%v", fs.layout, fs.slots)
+		}
 		if fs.nilRest {
 			cls.add("fork-nil-precommits-of-the-rest")
 			if fs.genuineFirst && (fs.coal == "none" || fs.coal == "low" || fs.coal == "below-level") {
@@ -343,6 +349,7 @@ func runEpisode(t *rapid.T, w *world, label string, hk *hook) epResult {
 		fs := w.genFork(t, "pforkBelow", j, r-1, w.g[j].ValidatorSet, num, den, now, drift, j-1)
 		fs.timeMode = "genuine"
 		fs.salt = label + "below"
+		hostile["pfork"] = fs.layout != ""
 		forkNotes = append(forkNotes, fmt.Sprintf("pfork: heights %d..%d (below the root) genuineFirst=%v coalition=%s nilRest=%v", fs.j, fs.m, fs.genuineFirst, fs.coal, fs.nilRest))
 		pblocks, platest = overlay(w.g, w.build(fs, gview))
 		calls[0].height = rapid.Int64Range(1, r-1).Draw(t, "pfork.below.call")
@@ -350,6 +357,7 @@ func runEpisode(t *rapid.T, w *world, label string, hk *hook) epResult {
 		pblocks, platest = overlay(w.g, mkFork("pfork", pkind == "fork-backed", gview))
 	}
 	primary := w.newNode(ep, "primary:"+pkind, pblocks, platest)
+	primary.hostileLayout = hostile["pfork"]
 	if strings.HasSuffix(pkind, "faulty") {
 		addFaults(primary, "pfault")
 	}
@@ -383,6 +391,7 @@ func runEpisode(t *rapid.T, w *world, label string, hk *hook) epResult {
 		case "echo":
 			b, l := overlay(primary.blocks, nil)
 			n = w.newNode(ep, kind, b, l)
+			n.hostileLayout = primary.hostileLayout
 		case "silent", "silent-later":
 			b, l := overlay(w.g, nil)
 			n = w.newNode(ep, kind, b, l)
@@ -425,6 +434,7 @@ func runEpisode(t *rapid.T, w *world, label string, hk *hook) epResult {
 		case "conflict-unbacked":
 			b, l := overlay(w.g, mkFork(lbl+"fork", false, gview))
 			n = w.newNode(ep, kind, b, l)
+			n.hostileLayout = hostile[lbl+"fork"]
 		}
 		if rapid.IntRange(0, 9).Draw(t, lbl+".evErr") == 0 {
 			n.evErr = errGeneric
